@@ -9,15 +9,27 @@
 //! Families (key=value words, any order):
 //!  qw role=c|s kind=bi|uni|bip skip=N win=N cwin=N swin=N bufs=a.b,c,.. seed=N ids=MASK dbl=J|- dblp=J|- rd=N ps=N|-
 //!     psp=J|- via=conn|opener|clone drop=0|1 cf=J|- fault=none|stop:C@N|close:C@N|timeout@N|afin|areset:C@J|lclose:C@J|cfin@J
+//!     also fault=nofin (no finish: the stream is just dropped), pr0=1 (poll_ready on the idle stream before the first
+//!     send_data and after the last buffer), tail=op.op (after the stream was finished / reset: rC reset(C), f poll_finish,
+//!     p poll_ready), pse=1 (poll_send with an empty buffer after the raw bytes), sa=K (after a failed write: K more rounds of
+//!     send_data + poll_ready, then - peer stop - poll_finish; alive = A's connection is still open)
 //!     (psp = poll_send attempted while buffer J is half written; cfin = the write of buffer J is abandoned at its
 //!      first Pending and the stream finished; via = which `impl OpenStreams` opens the stream / closes)
 //!     (a buffer is a DATA frame with payload chunks a.b.., or hN = HEADERS frame, tT:a.b = stream type T then a
 //!      DATA frame, yT = stream type T alone; ps = raw bytes sent afterwards with SendStreamUnframed::poll_send)
 //!  qr role=c|s kind=bi|uni|bip skip=N win=N cwin=N chunks=a,b,.. seed=N ids=MASK stop=none|C@idle|C@pend|C@pend2
 //!     fault=fin|reset:C@N|close:C@N|timeout@N|lclose:C re=K restop=C|-
+//!     also fault=open (the peer leaves the stream open: the case ends with a read in flight); a stop code that is
+//!     no varint makes stop_sending panic: reported as sp=PANIC, the case goes on without that stop
 //!     (re = after a failed read poll_data K more times, ask recv_id, optionally stop_sending(restop) and poll once more)
-//!  qa role=c|s op=accept_recv|accept_bidi|open_bidi|open_send via=conn|opener|clone fault=close:C|lclose:C|timeout
-//!  qd role=c|s dir=send|recv sid=S len=N seed=N fault=none|close:C|lclose:C|timeout|toolarge|disabled
+//!  qa role=c|s op=accept_recv|accept_bidi|open_bidi|open_send via=conn|opener|clone fault=close:C|lclose:C|timeout|sreset|pclosed|terr
+//!     (pclosed / terr, role=s only: A holds the 0.5-RTT connection handle of a handshake that then fails - the client
+//!      rejects the server's certificate: ConnectionError::ConnectionClosed; the client has no certificate for a server
+//!      that demands one: ConnectionError::TransportError)
+//!     (sreset, role=c only: the peer forgets the connection without A hearing of it - its CONNECTION_CLOSE is dropped -
+//!      and answers A's next packet with a stateless reset: quinn::ConnectionError::Reset)
+//!  qd role=c|s dir=send|recv sid=S len=N seed=N fault=none|close:C|lclose:C|timeout|toolarge|disabled|ldisabled|sreset
+//!     (disabled: the peer does not accept datagrams; ldisabled: side A does not)
 use std::collections::HashMap;
 use std::future::{poll_fn, Future};
 use std::io::{BufRead, Write};
@@ -331,12 +343,177 @@ struct Pair {
     p: quinn::Connection,
 }
 
-/// role = "c": the adapter side is the connecting side
-async fn connect(net: &Net, tc: Arc<TransportConfig>, role: &str) -> Pair {
+/// A UDP socket whose outgoing datagrams can be switched off (they are dropped silently): lets a peer forget a
+/// connection without the other side hearing of it.
+#[derive(Debug)]
+struct MuteSocket {
+    inner: Arc<dyn quinn::AsyncUdpSocket>,
+    mute: Arc<std::sync::atomic::AtomicBool>,
+}
+impl quinn::AsyncUdpSocket for MuteSocket {
+    fn create_io_poller(self: Arc<Self>) -> Pin<Box<dyn quinn::UdpPoller>> {
+        self.inner.clone().create_io_poller()
+    }
+    fn try_send(&self, transmit: &quinn::udp::Transmit) -> std::io::Result<()> {
+        if self.mute.load(std::sync::atomic::Ordering::SeqCst) {
+            Ok(())
+        } else {
+            self.inner.try_send(transmit)
+        }
+    }
+    fn poll_recv(
+        &self,
+        cx: &mut std::task::Context,
+        bufs: &mut [std::io::IoSliceMut<'_>],
+        meta: &mut [quinn::udp::RecvMeta],
+    ) -> Poll<std::io::Result<usize>> {
+        self.inner.poll_recv(cx, bufs, meta)
+    }
+    fn local_addr(&self) -> std::io::Result<SocketAddr> {
+        self.inner.local_addr()
+    }
+    fn max_transmit_segments(&self) -> usize {
+        self.inner.max_transmit_segments()
+    }
+    fn max_receive_segments(&self) -> usize {
+        self.inner.max_receive_segments()
+    }
+    fn may_fragment(&self) -> bool {
+        self.inner.may_fragment()
+    }
+}
+
+/// Side A is the accepting side and uses the connection handle of `Connecting::into_0rtt()` (0.5-RTT: the server may
+/// open streams and send before the handshake is complete).  The handshake then fails:
+///  `pclosed`: the client does not trust the server's certificate and says so - CONNECTION_CLOSE with a crypto error
+///             from the peer: quinn::ConnectionError::ConnectionClosed;
+///  `terr`:    the server demands a client certificate, the client has none - detected locally:
+///             quinn::ConnectionError::TransportError.
+/// Returns A's connection once it is lost with the expected error (endpoints are returned to keep them alive).
+async fn connect_failing_handshake(tc: Arc<TransportConfig>, how: &str) -> Result<(quinn::Connection, quinn::Endpoint, quinn::Endpoint), String> {
+    let self_signed = || {
+        let cert = rcgen::generate_simple_self_signed(vec!["localhost".into()]).unwrap();
+        let der: CertificateDer<'static> = cert.cert.into();
+        let key = PrivateKeyDer::Pkcs8(cert.signing_key.serialize_der().into());
+        (der, key)
+    };
+    let (der, key) = self_signed();
+    let provider = Arc::new(rustls::crypto::ring::default_provider());
+    let mut roots = rustls::RootCertStore::empty();
+    roots.add(der.clone()).unwrap();
+    let sb = rustls::ServerConfig::builder_with_provider(provider.clone())
+        .with_protocol_versions(&[&rustls::version::TLS13])
+        .unwrap();
+    let mut scrypto = if how == "terr" {
+        let verifier = rustls::server::WebPkiClientVerifier::builder_with_provider(Arc::new(roots.clone()), provider.clone())
+            .build()
+            .unwrap();
+        sb.with_client_cert_verifier(verifier).with_single_cert(vec![der.clone()], key).unwrap()
+    } else {
+        sb.with_no_client_auth().with_single_cert(vec![der.clone()], key).unwrap()
+    };
+    scrypto.alpn_protocols = vec![b"h3".to_vec()];
+    let mut croots = rustls::RootCertStore::empty();
+    if how == "pclosed" {
+        // the client trusts some other certificate
+        croots.add(self_signed().0).unwrap();
+    } else {
+        croots.add(der).unwrap();
+    }
+    let mut ccrypto = rustls::ClientConfig::builder_with_provider(provider)
+        .with_protocol_versions(&[&rustls::version::TLS13])
+        .unwrap()
+        .with_root_certificates(croots)
+        .with_no_client_auth();
+    ccrypto.alpn_protocols = vec![b"h3".to_vec()];
+    let mut server_config = quinn::ServerConfig::with_crypto(Arc::new(QuicServerConfig::try_from(scrypto).unwrap()));
+    server_config.transport = tc.clone();
+    let mut client_config = quinn::ClientConfig::new(Arc::new(QuicClientConfig::try_from(ccrypto).unwrap()));
+    client_config.transport_config(tc);
+    let lo: SocketAddr = "127.0.0.1:0".parse().unwrap();
+    let server = quinn::Endpoint::server(server_config, lo).unwrap();
+    let addr = server.local_addr().unwrap();
+    let client = quinn::Endpoint::client(lo).unwrap();
+    let connecting = client.connect_with(client_config, addr, "localhost").unwrap();
+    let client_side = tokio::spawn(async move { connecting.await.map(|_| ()) });
+    let incoming = server.accept().await.ok_or("endpoint closed")?;
+    let a = match incoming.accept().map_err(|e| format!("{:?}", e))?.into_0rtt() {
+        Ok((conn, _)) => conn,
+        Err(_) => return Err("no-0.5rtt".into()),
+    };
+    let lost = tokio::time::timeout(Duration::from_secs(20), a.closed()).await;
+    let _ = client_side.await;
+    match (how, lost) {
+        ("pclosed", Ok(quinn::ConnectionError::ConnectionClosed(_))) | ("terr", Ok(quinn::ConnectionError::TransportError(_))) => Ok((a, server, client)),
+        (_, other) => Err(format!("{:?}", other).replace(' ', "_")),
+    }
+}
+
+/// The peer (accepting endpoint on a MuteSocket) closes while its packets are dropped and forgets the connection;
+/// A's next packets are answered with a stateless reset.  Ok when A's connection ended with ConnectionError::Reset.
+async fn lose_by_stateless_reset(pair: &Pair, server: &quinn::Endpoint, mute: &Arc<std::sync::atomic::AtomicBool>) -> Result<(), String> {
+    mute.store(true, std::sync::atomic::Ordering::SeqCst);
+    pair.p.close(VarInt::from_u32(0), b"gone");
+    for _ in 0..500 {
+        if server.open_connections() == 0 {
+            break;
+        }
+        tokio::time::sleep(Duration::from_millis(10)).await;
+    }
+    mute.store(false, std::sync::atomic::Ordering::SeqCst);
+    // a fresh packet every 50 ms (stateless resets are rate-limited)
+    let lost = tokio::time::timeout(Duration::from_secs(20), async {
+        loop {
+            let _ = pair.a.send_datagram(Bytes::from(vec![0u8; 200]));
+            if let Ok(e) = tokio::time::timeout(Duration::from_millis(50), pair.a.closed()).await {
+                break e;
+            }
+        }
+    })
+    .await;
+    match lost {
+        Ok(quinn::ConnectionError::Reset) => Ok(()),
+        other => Err(format!("{:?}", other).replace(' ', "_")),
+    }
+}
+
+/// A connection of its own pair of endpoints, the accepting endpoint sitting on a MuteSocket.  A is the connecting side.
+async fn connect_mutable(net: &Net, tc: Arc<TransportConfig>) -> (Pair, quinn::Endpoint, quinn::Endpoint, Arc<std::sync::atomic::AtomicBool>) {
+    use quinn::Runtime;
+    let lo: SocketAddr = "127.0.0.1:0".parse().unwrap();
+    let rt = Arc::new(quinn::TokioRuntime);
+    let inner = rt.wrap_udp_socket(std::net::UdpSocket::bind(lo).unwrap()).unwrap();
+    let mute = Arc::new(std::sync::atomic::AtomicBool::new(false));
     let mut server_config = quinn::ServerConfig::with_crypto(net.server_crypto.clone());
     server_config.transport = tc.clone();
+    let server = quinn::Endpoint::new_with_abstract_socket(
+        quinn::EndpointConfig::default(),
+        Some(server_config),
+        Arc::new(MuteSocket { inner, mute: mute.clone() }),
+        rt,
+    )
+    .unwrap();
+    let addr = server.local_addr().unwrap();
+    let client = quinn::Endpoint::client(lo).unwrap();
     let mut client_config = quinn::ClientConfig::new(net.client_crypto.clone());
     client_config.transport_config(tc);
+    let connecting = client.connect_with(client_config, addr, "localhost").unwrap();
+    let (c, s) = tokio::join!(async { connecting.await }, async { server.accept().await.expect("endpoint open").await });
+    (Pair { a: c.expect("connect"), p: s.expect("accept") }, server, client, mute)
+}
+
+/// role = "c": the adapter side is the connecting side
+async fn connect(net: &Net, tc: Arc<TransportConfig>, role: &str) -> Pair {
+    connect2(net, tc.clone(), tc, role).await
+}
+
+/// the same with one transport configuration for side A and another for the peer
+async fn connect2(net: &Net, tc_a: Arc<TransportConfig>, tc_p: Arc<TransportConfig>, role: &str) -> Pair {
+    let (tc_client, tc_server) = if role == "c" { (tc_a, tc_p) } else { (tc_p, tc_a) };
+    let mut server_config = quinn::ServerConfig::with_crypto(net.server_crypto.clone());
+    server_config.transport = tc_server;
+    let mut client_config = quinn::ClientConfig::new(net.client_crypto.clone());
+    client_config.transport_config(tc_client);
     let guard = net.lock.lock().await;
     // a short idle timeout (timeout cases) can expire during the handshake on a loaded machine: try again
     let mut attempt = 0;
@@ -596,7 +773,14 @@ async fn run_qw(certs: &Certs, c: &Case) -> String {
     let (done_tx, done_rx) = oneshot::channel::<()>();
     // drop=1: the adapter stream is dropped right after poll_finish answered Ok and the peer starts reading
     // only then (what h3 does with every finished request / response stream); needs all data to fit the windows
-    let drop_mode = c.n("drop", 0) == 1;
+    let drop_mode = c.n("drop", 0) == 1 || fname == "nofin";
+    let pr_idle = c.n("pr0", 0) == 1;
+    let mut pr0_out = String::from("-");
+    let mut pr1_out = String::from("-");
+    let tail: Vec<String> = match c.s("tail", "-").as_str() {
+        "-" => vec![],
+        x => x.split('.').map(|o| o.to_string()).collect(),
+    };
     let (start_tx, start_rx) = oneshot::channel::<()>();
     // how many bytes the peer has read (A closes locally only once nothing it wrote is still in flight)
     let (seen_tx, mut seen_rx) = tokio::sync::watch::channel::<u64>(0);
@@ -779,6 +963,18 @@ async fn run_qw(certs: &Certs, c: &Case) -> String {
             res = format!("finerr:{}", res_unit(&r));
         }
     }
+    let show_ready = |x: Poll<Result<(), StreamErrorIncoming>>| match x {
+        Poll::Pending => "pending".to_string(),
+        Poll::Ready(r) => res_unit(&r),
+    };
+    if pr_idle {
+        // poll_ready on a stream that has nothing to write
+        let x = {
+            let mut fut = poll_fn(|cx| w.poll_ready(cx));
+            futures::poll!(Pin::new(&mut fut))
+        };
+        pr0_out = show_ready(x);
+    }
     let mut sent = 0u64;
     if res == "ok" {
         for (j, spec) in bufs.iter().enumerate() {
@@ -871,9 +1067,40 @@ async fn run_qw(certs: &Certs, c: &Case) -> String {
             sent += 1;
         }
     }
+    // sa=1: after a write that failed (Quinn refused it), send_data once more and drive it: the send half must take the
+    // buffer (it gave up the one in flight) and fail the way the stream failed
+    let sa_rounds = c.n("sa", 0);
+    let mut sa_out = String::from("-");
+    let mut saf_out = String::from("-");
+    if sa_rounds > 0 && res.starts_with("err:") && !res.ends_with("@send") {
+        let mut rounds = Vec::new();
+        for _ in 0..sa_rounds {
+            rounds.push(match w.send_data(marker()) {
+                Ok(()) => format!("ok/{}", res_unit(&poll_fn(|cx| w.poll_ready(cx)).await)),
+                Err(e) => format!("refused:{}", stream_class(&e)),
+            });
+        }
+        sa_out = rounds.join(",");
+        // and the stream is finished (peer stop only: what finish() says on a lost connection is Quinn's business)
+        if fname == "stop" {
+            // first with a buffer in flight (poll_finish has to drain it: Quinn refuses again), then with nothing left
+            let drained = match w.send_data(marker()) {
+                Ok(()) => format!("ok/{}", res_unit(&poll_fn(|cx| w.poll_finish(cx)).await)),
+                Err(e) => format!("refused:{}", stream_class(&e)),
+            };
+            saf_out = format!("{},{}", drained, res_unit(&poll_fn(|cx| w.poll_finish(cx)).await));
+        }
+    }
     q(&w, 3, &mut ids);
+    if pr_idle && res == "ok" && !cancelled {
+        let x = {
+            let mut fut = poll_fn(|cx| w.poll_ready(cx));
+            futures::poll!(Pin::new(&mut fut))
+        };
+        pr1_out = show_ready(x);
+    }
     let mut ps_out = String::from("-");
-    let ps_faults = ["none", "stop", "close", "timeout"];
+    let ps_faults = ["none", "nofin", "stop", "close", "timeout"];
     if let (Some(n), true, "ok") = (ps_len, ps_faults.contains(&fname.as_str()), res.as_str()) {
         // SendStreamUnframed::poll_send: raw bytes, one poll_write per call
         let mut raw = raw_buf(seed, n as usize);
@@ -893,6 +1120,17 @@ async fn run_qw(certs: &Certs, c: &Case) -> String {
                 }
             }
         }
+    }
+    // pse=1: poll_send with an empty buffer
+    let pse = c.n("pse", 0) == 1;
+    let mut pse_out = String::from("-");
+    if pse && (fname == "none" || fname == "nofin") && res == "ok" && (ps_out == "-" || ps_out == "ok") {
+        let mut empty = ChunkBuf::new(vec![]);
+        pse_out = match tokio::time::timeout(Duration::from_secs(20), poll_fn(|cx| w.poll_send(cx, &mut empty))).await {
+            Ok(Ok(k)) => format!("ok:{}", k),
+            Ok(Err(e)) => format!("err:{}", stream_class(&e)),
+            Err(_) => "pending".into(),
+        };
     }
     match fname.as_str() {
         "none" => {
@@ -939,6 +1177,25 @@ async fn run_qw(certs: &Certs, c: &Case) -> String {
         }
         _ => {}
     }
+    // more calls on the stream once it has been finished / reset
+    let mut tl_out: Vec<String> = Vec::new();
+    for op in &tail {
+        match &op[..1] {
+            "r" => w.reset(op[1..].parse().expect("reset code")),
+            "f" => {
+                let r = poll_fn(|cx| w.poll_finish(cx)).await;
+                tl_out.push(res_unit(&r));
+            }
+            "p" => {
+                let x = {
+                    let mut fut = poll_fn(|cx| w.poll_ready(cx));
+                    futures::poll!(Pin::new(&mut fut))
+                };
+                tl_out.push(show_ready(x));
+            }
+            _ => panic!("tail op"),
+        }
+    }
     q(&w, 4, &mut ids);
     let rid = w.recv_id().map(|x| x.to_string()).unwrap_or_else(|| "-".into());
     if drop_mode {
@@ -970,6 +1227,20 @@ async fn run_qw(certs: &Certs, c: &Case) -> String {
     }
     if let Some(f) = fin2 {
         out.push_str(&format!(" fin2={}", f));
+    }
+    if pse {
+        out.push_str(&format!(" pse={}", pse_out));
+    }
+    if sa_rounds > 0 {
+        // the stream failed, the connection must not have been closed by side A because of it
+        let alive = fname != "stop" || pair.a.close_reason().is_none();
+        out.push_str(&format!(" sa={} saf={} alive={}", sa_out, saf_out, if alive { 1 } else { 0 }));
+    }
+    if pr_idle {
+        out.push_str(&format!(" pr0={} pr1={}", pr0_out, pr1_out));
+    }
+    if !tail.is_empty() {
+        out.push_str(&format!(" tl={}", if tl_out.is_empty() { "-".to_string() } else { tl_out.join("/") }));
     }
     pair.a.close(VarInt::from_u32(0), b"done");
     pair.p.close(VarInt::from_u32(0), b"done");
@@ -1015,6 +1286,9 @@ async fn run_qr(certs: &Certs, c: &Case) -> String {
     // how many bytes A has read so far (the peer closes only once nothing it wrote is still in flight:
     // a CONNECTION_CLOSE lost in a burst of data would surface as a stateless reset instead)
     let (seen_tx, mut seen_rx) = tokio::sync::watch::channel::<u64>(0);
+    // set by A before `go` when no stop_sending call went through (every one of them panicked)
+    let no_stop = Arc::new(std::sync::atomic::AtomicBool::new(false));
+    let no_stop2 = no_stop.clone();
 
     let fname2 = fname.clone();
     let stop_when2 = stop_when.clone();
@@ -1023,6 +1297,7 @@ async fn run_qr(certs: &Certs, c: &Case) -> String {
     let peer = tokio::spawn(async move {
         let pid: u64 = ps.id().into();
         let _ = go_rx.await;
+        let stop_when2 = if no_stop2.load(std::sync::atomic::Ordering::SeqCst) { "none".to_string() } else { stop_when2 };
         let mut pstop = String::from("-");
         let mut pclose = String::from("-");
         let mut written = 0u64;
@@ -1060,7 +1335,7 @@ async fn run_qr(certs: &Certs, c: &Case) -> String {
                 }
                 Err(_) => break,
             }
-            if stop_when2.starts_with("pend") && j == 0 {
+            if stop_when2.starts_with("pend") && j == 0 && written > 0 {
                 // the deferred stop is delivered when A's pending read completes with this chunk
                 match tokio::time::timeout(Duration::from_secs(20), ps.stopped()).await {
                     Ok(Ok(Some(code))) => pstop = code.into_inner().to_string(),
@@ -1161,10 +1436,23 @@ async fn run_qr(certs: &Certs, c: &Case) -> String {
         Poll::Ready(Ok(None)) => "fin".to_string(),
         Poll::Ready(Err(e)) => format!("err:{}", stream_class(e)),
     };
+    let total_len = expected.len();
     let mut chk = PrefixCheck::new(expected);
     q(&r, 0, &mut ids);
-    if stop_when == "idle" {
-        r.stop_sending(stop_code);
+    // stop_sending under catch_unwind: a code that is no varint makes the adapter panic (before it touches anything)
+    let mut sp_out = String::from("-");
+    let mut stops_ok = 0u32;
+    let try_stop = |r: &mut R, code: u64, sp_out: &mut String| -> bool {
+        match std::panic::catch_unwind(std::panic::AssertUnwindSafe(|| r.stop_sending(code))) {
+            Ok(()) => true,
+            Err(_) => {
+                *sp_out = "PANIC".into();
+                false
+            }
+        }
+    };
+    if stop_when == "idle" && try_stop(&mut r, stop_code, &mut sp_out) {
+        stops_ok += 1;
     }
     // a read that stays pending (nothing has been written yet), then is cancelled
     let p1 = {
@@ -1187,9 +1475,11 @@ async fn run_qr(certs: &Certs, c: &Case) -> String {
         Poll::Pending => None,
     };
     if stop_when.starts_with("pend") {
-        r.stop_sending(stop_code);
-        if stop_when == "pend2" {
-            r.stop_sending(stop_code + 1);
+        if try_stop(&mut r, stop_code, &mut sp_out) {
+            stops_ok += 1;
+        }
+        if stop_when == "pend2" && try_stop(&mut r, stop_code + 1, &mut sp_out) {
+            stops_ok += 1;
         }
         q(&r, 3, &mut ids);
         let x = {
@@ -1203,8 +1493,41 @@ async fn run_qr(certs: &Certs, c: &Case) -> String {
             chk.push(b);
         }
     }
+    if stop_when != "none" && stops_ok == 0 {
+        no_stop.store(true, std::sync::atomic::Ordering::SeqCst);
+    }
     let _ = go_tx.send(());
     let mut first = true;
+    if fname == "open" {
+        // the peer writes everything and leaves the stream open: read it all, then one more poll stays pending
+        while ended.is_none() && chk.pos < total_len {
+            match poll_fn(|cx| r.poll_data(cx)).await {
+                Ok(Some(b)) => {
+                    chk.push(&b);
+                    if first {
+                        first = false;
+                        q(&r, 4, &mut ids);
+                    }
+                }
+                Ok(None) => ended = Some("fin".into()),
+                Err(e) => ended = Some(format!("err:{}", stream_class(&e))),
+            }
+        }
+        if ended.is_none() {
+            let x = {
+                let mut fut = poll_fn(|cx| r.poll_data(cx));
+                let x = futures::poll!(Pin::new(&mut fut));
+                drop(fut);
+                x
+            };
+            ended = Some(match x {
+                Poll::Pending => "open".to_string(),
+                Poll::Ready(Ok(Some(_))) => "data-after-end".to_string(),
+                Poll::Ready(Ok(None)) => "fin".to_string(),
+                Poll::Ready(Err(e)) => format!("err:{}", stream_class(&e)),
+            });
+        }
+    }
     if fname == "lclose" {
         // read the first piece, then close the connection locally
         if ended.is_none() && !chunks.is_empty() {
@@ -1260,7 +1583,7 @@ async fn run_qr(certs: &Certs, c: &Case) -> String {
     let xid = r.send_id().map(|x| x.to_string()).unwrap_or_else(|| "-".into());
     let _ = done_tx.send(());
     let (pid, pstop, pclose) = peer.await.expect("peer task");
-    let out = format!(
+    let mut out = format!(
         "ok end={} {} p1={} p2={} ids={} pid={} xid={} pstop={} pclose={} re={} rs={}",
         ended.unwrap(),
         chk.show(),
@@ -1274,6 +1597,9 @@ async fn run_qr(certs: &Certs, c: &Case) -> String {
         if re_out.is_empty() { "-".to_string() } else { re_out.join("/") },
         rs_out
     );
+    if sp_out != "-" {
+        out.push_str(&format!(" sp={}", sp_out));
+    }
     pair.a.close(VarInt::from_u32(0), b"done");
     pair.p.close(VarInt::from_u32(0), b"done");
     out
@@ -1287,17 +1613,47 @@ async fn run_qa(certs: &Certs, c: &Case) -> String {
     let (fname, fcode, _) = parse_fault(&c.s("fault", "close:0"));
     let idle_ms = if fname == "timeout" { 500 } else { 0 };
     let tc = transport(1 << 20, 1 << 22, 1 << 22, idle_ms);
-    let pair = connect(certs, tc, &role).await;
+    if fname == "pclosed" || fname == "terr" {
+        assert_eq!(role, "s", "a failing handshake leaves a connection handle only on the accepting side (0.5-RTT)");
+        let (a, _server, _client) = match connect_failing_handshake(tc, &fname).await {
+            Ok(x) => x,
+            Err(e) => return format!("ok res=unexpected:{} pclose=-", e),
+        };
+        let mut conn = h3_quinn::Connection::new(a);
+        let mut handle = opener_handle(&conn, &c.s("via", "conn"));
+        let res = qa_op(&op, &mut conn, &mut handle).await;
+        return format!("ok res={} pclose=-", res);
+    }
+    let mut own_endpoints = None;
+    let pair = if fname == "sreset" {
+        assert_eq!(role, "c", "sreset: only the accepting side announces a stateless reset token for its first connection id");
+        let (pair, server, client, mute) = connect_mutable(certs, tc).await;
+        own_endpoints = Some((server, client, mute));
+        pair
+    } else {
+        connect(certs, tc, &role).await
+    };
     let mut conn = h3_quinn::Connection::new(pair.a.clone());
     let mut handle = opener_handle(&conn, &c.s("via", "conn"));
     let mut pclose = String::from("-");
     match fname.as_str() {
+        "sreset" => {
+            let (server, _client, mute) = own_endpoints.as_ref().unwrap();
+            if let Err(e) = lose_by_stateless_reset(&pair, server, mute).await {
+                return format!("ok res=notreset:{} pclose=-", e);
+            }
+        }
         "close" => {
             pair.p.close(VarInt::from_u64(fcode).unwrap(), b"bye");
             let _ = pair.a.closed().await;
         }
         "lclose" => {
-            a_close(&mut conn, &mut handle, fcode, b"local");
+            // a code that is no varint makes close panic: nothing was closed, the case ends there
+            if std::panic::catch_unwind(std::panic::AssertUnwindSafe(|| a_close(&mut conn, &mut handle, fcode, b"local"))).is_err() {
+                pair.a.close(VarInt::from_u32(0), b"done");
+                pair.p.close(VarInt::from_u32(0), b"done");
+                return "ok res=- pclose=PANIC".into();
+            }
             if let quinn::ConnectionError::ApplicationClosed(ac) = pair.p.closed().await {
                 pclose = ac.error_code.into_inner().to_string();
             }
@@ -1307,27 +1663,31 @@ async fn run_qa(certs: &Certs, c: &Case) -> String {
         }
         _ => panic!("fault"),
     }
-    let res = match op.as_str() {
-        "accept_recv" => match poll_fn(|cx| quic::Connection::<ChunkBuf>::poll_accept_recv(&mut conn, cx)).await {
+    let res = qa_op(&op, &mut conn, &mut handle).await;
+    pair.p.close(VarInt::from_u32(0), b"done");
+    format!("ok res={} pclose={}", res, pclose)
+}
+
+async fn qa_op(op: &str, conn: &mut h3_quinn::Connection, handle: &mut Option<h3_quinn::OpenStreams>) -> String {
+    match op {
+        "accept_recv" => match poll_fn(|cx| quic::Connection::<ChunkBuf>::poll_accept_recv(conn, cx)).await {
             Ok(_) => "ok".to_string(),
             Err(e) => format!("err:{}", conn_class(&e)),
         },
-        "accept_bidi" => match poll_fn(|cx| quic::Connection::<ChunkBuf>::poll_accept_bidi(&mut conn, cx)).await {
+        "accept_bidi" => match poll_fn(|cx| quic::Connection::<ChunkBuf>::poll_accept_bidi(conn, cx)).await {
             Ok(_) => "ok".to_string(),
             Err(e) => format!("err:{}", conn_class(&e)),
         },
-        "open_bidi" => match a_open_bidi(&mut conn, &mut handle).await {
+        "open_bidi" => match a_open_bidi(conn, handle).await {
             Ok(_) => "ok".to_string(),
             Err(e) => format!("err:{}", stream_class(&e)),
         },
-        "open_send" => match a_open_send(&mut conn, &mut handle).await {
+        "open_send" => match a_open_send(conn, handle).await {
             Ok(_) => "ok".to_string(),
             Err(e) => format!("err:{}", stream_class(&e)),
         },
         _ => panic!("op"),
-    };
-    pair.p.close(VarInt::from_u32(0), b"done");
-    format!("ok res={} pclose={}", res, pclose)
+    }
 }
 
 // ------------------------------------------------------------------ qd: datagrams through the adapter
@@ -1342,8 +1702,18 @@ async fn run_qd(certs: &Certs, c: &Case) -> String {
     let seed = c.n("seed", 1);
     let (fname, fcode, _) = parse_fault(&c.s("fault", "none"));
     let idle_ms = if fname == "timeout" { 500 } else { 0 };
-    let tc = transport_dg(1 << 20, 1 << 22, 1 << 22, idle_ms, fname != "disabled");
-    let pair = connect(certs, tc, &role).await;
+    // disabled: the peer does not accept datagrams (no max_datagram_frame_size announced); ldisabled: side A does not
+    let tc_a = transport_dg(1 << 20, 1 << 22, 1 << 22, idle_ms, fname != "ldisabled");
+    let tc_p = transport_dg(1 << 20, 1 << 22, 1 << 22, idle_ms, fname != "disabled");
+    let mut own_endpoints = None;
+    let pair = if fname == "sreset" {
+        assert_eq!(role, "c", "sreset: A is the connecting side");
+        let (pair, server, client, mute) = connect_mutable(certs, tc_a).await;
+        own_endpoints = Some((server, client, mute));
+        pair
+    } else {
+        connect2(certs, tc_a, tc_p, &role).await
+    };
     let mut conn = h3_quinn::Connection::new(pair.a.clone());
     let payload = gen_bytes(seed, 0, 0, len);
     let mut wire = varint(sid / 4);
@@ -1362,6 +1732,12 @@ async fn run_qd(certs: &Certs, c: &Case) -> String {
         }
         "timeout" => {
             let _ = pair.a.closed().await;
+        }
+        "sreset" => {
+            let (server, _client, mute) = own_endpoints.as_ref().unwrap();
+            if let Err(e) = lose_by_stateless_reset(&pair, server, mute).await {
+                return format!("ok res=notreset:{} recv=- pclose=-", e);
+            }
         }
         _ => {}
     }
